@@ -123,6 +123,23 @@ ssize_t STUB(read)(int fd, void *buf, size_t n)
 	return off;
 }
 
+/* specification of the lookup: the watch with descriptor wd in the instance's ordered set
+ * (the harness's own walk: the code's lookup helper is free to change its shape) */
+static struct iv_inotify_watch *spec_find(const struct iv_inotify *in, int wd)
+{
+	struct iv_avl_node *an = in->watches.root;
+	int d;
+
+	for (d = 0; d <= NW && an != NULL; d++) {
+		struct iv_inotify_watch *w = iv_container_of(an, struct iv_inotify_watch, an);
+
+		if (wd == w->wd)
+			return w;
+		an = (wd < w->wd) ? an->left : an->right;
+	}
+	return NULL;
+}
+
 static void mgc_watch(void *cookie, struct inotify_event *ev)
 {
 	int i = (int)(intptr_t)cookie, k, rec = -1;
@@ -138,7 +155,7 @@ static void mgc_watch(void *cookie, struct inotify_event *ev)
 	g_last_rec = rec;
 	if (rec >= 0 && rec < NE)
 		g_delivered[rec]++;
-	__CPROVER_assert(IMPLIES((ev->mask & IN_IGNORED) || (v_w[i]->mask & IN_ONESHOT), __find_watch(v_in, v_w[i]->wd) == NULL),
+	__CPROVER_assert(IMPLIES((ev->mask & IN_IGNORED) || (v_w[i]->mask & IN_ONESHOT), spec_find(v_in, v_w[i]->wd) == NULL),
 			 "[C20] a watch removed by the kernel or declared one-shot is dropped from the instance before its handler runs");
 	if ((ev->mask & IN_IGNORED) || (v_w[i]->mask & IN_ONESHOT))
 		g_in_tree[i] = 0;
@@ -253,7 +270,7 @@ void h_watch_register(void)
 	v_build();
 	__CPROVER_assume(!verif_in.registered[0]);
 	r = iv_inotify_watch_register(v_w[0]);
-	__CPROVER_assert(IMPLIES(verif_in.add_ret == -1, r == -1 && __find_watch(v_in, 100) == NULL), "[C20] a watch the kernel refuses is not added");
-	__CPROVER_assert(IMPLIES(r == 0, __find_watch(v_in, verif_in.add_ret) == v_w[0] && v_w[0]->wd == verif_in.add_ret), "[C20] a registered watch is found under the descriptor the kernel assigned");
+	__CPROVER_assert(IMPLIES(verif_in.add_ret == -1, r == -1 && spec_find(v_in, 100) == NULL), "[C20] a watch the kernel refuses is not added");
+	__CPROVER_assert(IMPLIES(r == 0, spec_find(v_in, verif_in.add_ret) == v_w[0] && v_w[0]->wd == verif_in.add_ret), "[C20] a registered watch is found under the descriptor the kernel assigned");
 	CANARY();
 }
